@@ -1410,6 +1410,50 @@ def duplabel_program(shape, n, use, rng):
     return "\n".join(out) + "\n"
 
 
+# ----------------------------------------------------------------------------- code that starts at instruction 0 (round 7)
+# Parameterless functions (no `arg` prologue) whose FIRST statement is a loop / branch: a back edge, `break` or
+# `continue` then lands on instruction #0 of the function.  `run` and `execute` do not run the same set-up around the
+# interpreter (logger, thread), so anything computed from `target - 1` shows in one pipeline only.
+def first_instruction_cases():
+    out = []
+    heads = [("while", "while rem > 0 {\n    acc.push(rem)\n    modify rem = rem - 1\n  }"),
+             ("while_continue", "while rem > 0 {\n    modify rem = rem - 1\n    if rem == 1 {\n      continue\n    }\n    acc.push(rem)\n  }"),
+             ("while_break", "while true {\n    modify rem = rem - 1\n    if rem < 1 {\n      break\n    }\n    acc.push(rem)\n  }"),
+             ("from", "from 0 to rem {\n    acc.push(7)\n  }"),
+             ("from_named", "from 0 to rem, iq {\n    acc.push(iq)\n  }"),
+             ("if_else", "if rem > 2 {\n    acc.push(1)\n  } else {\n    acc.push(2)\n  }"),
+             ("nested_while", "while rem > 0 {\n    while rem > 1 {\n      modify rem = rem - 1\n      acc.push(rem)\n    }\n    modify rem = rem - 1\n  }")]
+    for hn, head in heads:
+        for kind in ("closure", "method", "module_function"):
+            if kind == "closure":
+                src = ("mk = fn() -> fn() {\n  rem = 3\n  acc: [int...] = []\n  return fn() {\n  %s\n  print acc\n  print rem\n }\n}\ndrain = mk()\ndrain()\ndrain()\n" % head)
+            elif kind == "method":
+                src = ("rem = 3\nacc: [int...] = []\nclass Dq {\n  constructor(self) {\n  }\n  fn drain(self) {\n  %s\n  print acc\n  print rem\n  }\n}\ndq = Dq()\ndq.drain()\ndq.drain()\n" % head)
+            else:
+                src = ("rem = 3\nacc: [int...] = []\ndrain = fn() {\n  %s\n  print acc\n  print rem\n}\ndrain()\nrem = 2\ndrain()\n" % head)
+            out.append(("first_instruction/%s/%s" % (hn, kind), {"main.ms": src}, "main.ms"))
+    # the module itself starting with a loop
+    out.append(("first_instruction/while/module", {"main.ms": "while false {\n  print 1\n}\nfrom 0 to 2 {\n  print 2\n}\n"}, "main.ms"))
+    return out
+
+
+# ----------------------------------------------------------------------------- escapes the language does not define (round 7)
+# `\0`, `\a`, `\x41`, `\u{41}` … are compile errors on the pinned tree, in every pipeline (outside the domain, which is
+# what these programs observe there).  A build that starts to accept one of them has to carry the character through
+# every writer and reader like any other: the programs then compare the pipelines like all the rest.
+FOREIGN_ESCAPES = ["\\0", "\\a", "\\b", "\\f", "\\v", "\\e", "\\x41", "\\u0041", "\\u{41}", "\\'", "\\/", "\\s", "\\$", "\\{"]
+
+
+def foreign_escape_cases():
+    out = []
+    for e in FOREIGN_ESCAPES:
+        tag = e[1:].replace("{", "(").replace("}", ")").replace("/", "slash").replace("'", "apostrophe").replace("$", "dollar")
+        out.append(("foreign_escape/%s/print" % tag, {"main.ms": 'x = "a%sb"\nprint x\nprint x.len()\nprint "end"\n' % e}, "main.ms"))
+        out.append(("foreign_escape/%s/key_and_assert" % tag, {"main.ms": 'm = map[str, int] {\n  "k%s": 1\n}\nprint m.len()\nassert "%s" == "%s"\nprint "end"\n' % (e, e, e)}, "main.ms"))
+        out.append(("foreign_escape/%s/only" % tag, {"main.ms": 'print "%s"\nprint "%s%s".len()\n' % (e, e, e)}, "main.ms"))
+    return out
+
+
 def duplabel_cases(rng, n_random):
     cases = []
     for shape, ns, uses in (("functions", (2, 3), ("last", "first", "all", "middle")), ("blocks", (2, 3), ("last", "first", "all")),
